@@ -43,7 +43,6 @@ func setupC17(x *Ctx) {
 	// reference model: visible services and their address sets
 	model := map[string]map[string]bool{}
 
-
 	x.Go("A:resolver", func() {
 		a.create()
 		a.hub.Start()
